@@ -164,6 +164,17 @@ def check(prog: Program, tier: str) -> Result:
         e, target, mapping = _energy(p, ma)
         diff = e - target
         ok = diff.is_zero()
+        case_note = ""
+        if not ok:
+            # breakpoints written with min(.., ..) / max(.., ..): the identity must hold whichever argument is taken
+            cases = hc.split_minmax(diff, p.state)
+            if len(cases) > 1 or (cases and cases[0][1]):
+                bad_case = next(((d_, why_) for d_, why_ in cases if not d_.is_zero()), None)
+                if bad_case is None:
+                    ok = True
+                    diff = Rat.const(0)
+                else:
+                    diff, case_note = bad_case[0], " when " + " and ".join(bad_case[1])
         if ok and (p.has_cl is False or p.has_hl is False):
             # the identity was reached by taking the duration of the absent pulse as 0: either it holds exactly as well,
             # or the sentinel premise (R06.4) must be established for that direction
@@ -182,7 +193,7 @@ def check(prog: Program, tier: str) -> Result:
                 raise AnalysisError(f"{fi.qualname}: energy integral on path [{sig}] contains atoms the rule does not model: {unknown[:4]}")
             first_pulse = next((k for k, l in enumerate(p.loads) if any(l.equals(x) for x in (ma.atoms['PCL'], -ma.atoms['PHL']))), None)
             res.violation("R06.3", f"{sig}|{word[:300]}", hc.path_where(prog, ma, p, 2 * first_pulse if first_pulse is not None else 0), fi.qualname,
-                          f"month energy is not conserved on the path [{sig}]: integral - (monthly_cl - monthly_hl) = {diff.key()[:300]}",
+                          f"month energy is not conserved on the path [{sig}]{case_note}: integral - (monthly_cl - monthly_hl) = {diff.key()[:300]}",
                           pairs=[f"{l.key()} @ {h.key()}" for l, h in zip(p.loads, p.hours)],
                           path=hc.describe_trail(p.state))
     # ---- R06.4 sentinel premise
